@@ -569,3 +569,47 @@ func oneOf(got string, ins []*ap.AP, f func(*ap.AP) string) bool {
 	}
 	return false
 }
+
+// documentedStacks aggregates the stacks of a by the identity above refined by
+// the documented mapping identity of every location: "Normalize addresses to
+// handle address space randomization. Round up to next 4K boundary to avoid
+// minor discrepancies" - two mappings of a binary are one iff their sizes
+// rounded up to 4K and their file offsets agree. It returns value vectors per
+// refined identity (all-zero sums dropped), as sorted strings.
+func documentedStacks(aps []*ap.AP) []string {
+	sums := map[string][]int64{}
+	for _, a := range aps {
+		for i := range a.Stacks {
+			s := &a.Stacks[i]
+			k := identOf(a, s).String() + " maps:"
+			for _, l := range s.Locs {
+				if l.Map < 0 || l.Map >= len(a.Maps) {
+					k += " -"
+					continue
+				}
+				m := a.Maps[l.Map]
+				size := m.Limit - m.Start
+				size = (size + 0xfff) / 0x1000 * 0x1000
+				k += fmt.Sprintf(" %x@%x", size, m.Offset)
+			}
+			cur := sums[k]
+			if cur == nil {
+				cur = make([]int64, len(s.Values))
+				sums[k] = cur
+			}
+			for j, v := range s.Values {
+				if j < len(cur) {
+					cur[j] += v
+				}
+			}
+		}
+	}
+	var out []string
+	for k, v := range sums {
+		if !isZero(v) {
+			out = append(out, fmt.Sprintf("%v %s", v, k))
+		}
+	}
+	sort.Strings(out)
+	return out
+}
